@@ -15,7 +15,7 @@ package kvql
 
 //@ specfun holds(Int, B, B) Bool
 //
-//@ define wfRange(s NB, e NB) Bool = !(isnil(s) && isnil(e)) && (!isnil(s) && !isnil(e) ==> val(s) <= val(e))
+//@ define wfRange(s NB, e NB) Bool = !isnil(s) && !isnil(e) ==> val(s) <= val(e)
 //@ define wfST(st *ScanType) Bool = st != nil && st.scanTp >= 1 && st.scanTp <= 5
 //@   | && (st.scanTp == MGET ==> (forall i Int :: 0 <= i && i < len(st.keys) ==> !isnil(st.keys[i])))
 //@   | && (st.scanTp == PREFIX ==> len(st.keys) >= 1 && !isnil(st.keys[0]))
@@ -286,3 +286,16 @@ package kvql
 //@     invariant mapwf: forall q B :: has(lkeys, q) ==> !isnil(lkeys[q]) && val(lkeys[q]) == q
 //@     invariant nn: forall i Int :: 0 <= i && i < len(keys) ==> !isnil(keys[i])
 //@     invariant acc: has(lkeys, k) && has(rkeys, k) && visited(k) ==> member(keys, len(keys), k)
+//
+//@ func (o *FilterOptimizer) optimizeLiteralFirstExpr(e *BinaryOpExpr, left *StringExpr, keyIsGreater bool) (res *ScanType)
+//@   props C02 C18
+//@   ghost k B, v B
+//@   requires e != nil && left != nil && e.Left == left
+//@   requires (keyIsGreater && (e.Op == Lt || e.Op == Lte)) || (!keyIsGreater && (e.Op == Gt || e.Op == Gte))
+//@   use sem_gt(e, k, v)
+//@   use sem_gte(e, k, v)
+//@   use sem_lt(e, k, v)
+//@   use sem_lte(e, k, v)
+//@   ensures wf: wfST(res)
+//@   ensures[C02] covers: holds(e, k, v) ==> covers(res, k)
+//@   assigns nothing
